@@ -148,6 +148,17 @@ func c05(c *ctx) {
 					if shape == 4 { // an accepted modification that removes a rule from the middle of the lists
 						w.mod(0, h.up, modReq{rp: []uint32{2}, rf: []uint32{2}, rq: []uint32{2}}, "remove-middle")
 					}
+					if shape == 2 && r.Intn(2) == 0 {
+						// the rule that made the UP allocate the UE address leaves the session (removed), or is updated by a PDR
+						// without the UE IP Address IE: the address is the session's and goes back when the session ends
+						if r.Intn(2) == 0 {
+							w.mod(0, h.up, modReq{rp: []uint32{uint32(h.pdrs[1].ID)}}, "remove-allocating-pdr")
+						} else {
+							p := h.pdrs[1]
+							p.UE = nil
+							w.mod(0, h.up, modReq{up: []sysh.PdrIE{p}}, "update-allocating-pdr-without-ue-ip")
+						}
+					}
 					if r.Intn(3) == 0 && len(h.pdrs) > 1 { // a modification refused AFTER it removed rules that are not the last of their lists
 						w.mod(0, h.up, modReq{rp: []uint32{uint32(h.pdrs[0].ID)}, rf: []uint32{h.fars[0].ID}, rq: []uint32{999}}, "remove-then-refused")
 					}
